@@ -25,7 +25,9 @@ static void optCase(Rng &rng, CaseResult &r, unsigned mask) {
   std::string profile = rng.pick(std::vector<std::string>{"general", "rowhigh-any", "nets", "obstruction", "polarity", "multirow", "turned", "crowded"});
   GenOpts o = makeProfile(rng, profile);
   o.utilHi = 0.8;
+  o.farInit = false;
   Circuit c0 = genCircuit(rng, o);
+  if (rng.chance(0.15)) { randomFarTranslation(rng, c0); profile += "+faraway"; }
   std::string pdesc;
   ColoquinteParameters params = genParams(rng, false, &pdesc);
   Features f = features(c0);
